@@ -658,6 +658,26 @@ def run(tier, seed):
                     t.ok('MatrixGrader negative_powers', '%s|%s' % (tag, key))
             else:
                 t.fail('MatrixGrader negative_powers', '%s|%s' % (tag, key), '%s: %s' % (hist, what))
+    # the switch also holds when other machinery runs inside the grader's call (dependent samplers, user functions, sibling lists)
+    SM = rtcheck.real_module('mitxgraders/sampling.py')
+    for label, extra in (('dependent sampler', dict(variables=['c'], sample_from={'c': SM.DependentSampler(formula='2')})),
+                         ('dependent sampler (matrix formula)', dict(variables=['C'], sample_from={'C': SM.DependentSampler(formula='[[1,0],[0,2]]^2')})),
+                         ('user function', dict(user_functions={'f': lambda z: z}))):
+        for npow in (False, True):
+            try:
+                gm = mgm.MatrixGrader(answers='[[1, 0], [0, 1]]', max_array_dim=2, negative_powers=npow, **extra)
+                r = gm(None, '[[2, 0], [0, 4]]^3*[[2, 0], [0, 4]]^-3')
+                got = ('graded', r['ok'])
+            except exc.StudentFacingError as e:
+                got = ('refused', str(e)[:60])
+            except Exception as e:
+                got = ('foreign ' + type(e).__name__, str(e)[:60])
+            ok = (got == ('graded', True)) if npow else (got[0] == 'refused' and 'egative' in got[1])
+            ok = ok and MA.MathArray._negative_powers is True
+            (t.ok if ok else t.fail)('MatrixGrader negative_powers', 'nested|%s|%s' % (label, npow), *([] if ok else [
+                'MatrixGrader(negative_powers=%s) with a %s graded A^3*A^-3: %r (flag afterwards: %r), expected %s' % (
+                    npow, label, got, MA.MathArray._negative_powers, 'correct' if npow else "the refusal 'Negative matrix powers have been disabled.'")]))
+            MA.MathArray._negative_powers = True
     # the context manager itself
     A = entries((3, 3), 'real')
     for e in (-1, -2, -1.0, -3):
